@@ -158,6 +158,92 @@ XPXP_TO_XXPP = dict(
 
 CALLEES = {"comb": COMB_CALLEE}
 
+# ---------------------------------------------------------------------------------------- vectorised variants
+# arr_comb / get_index_in_fock_(sub)space_array are numpy code compiled by numba; vf/lift.py rewrites the real source,
+# mechanically, into the function computing ONE generic element (rules R1-R7 there).  The lifted text is verified
+# against the same specification as the scalar functions, so `vectorised index = scalar index = rank` for every
+# element in the stated range; every array temporary must fit int64 and every stored value its array's dtype.
+
+
+def _replay_arr_comb(vc, r):
+    """replay of a refuted arr_comb obligation on the real (jitted) function: first the solver's model (n, k); when the
+    model does not fail natively (e.g. a refuted invariant), every (n, k) with n <= 200 inside the contract's range"""
+    import math
+    try:
+        import numpy as np
+
+        from piquasso._math.combinatorics import arr_comb
+
+        def bad(n, k):
+            got = int(arr_comb(np.array([n], dtype=np.int64), k)[0])
+            want = math.comb(n, k) if 0 <= k <= n else 0
+            return None if got == want else {"n": n, "k": k, "arr_comb": got, "binomial": want}
+
+        m = r.model or {}
+        try:
+            n, k = int(m.get("n")), int(m.get("k"))
+        except (TypeError, ValueError):
+            n, k = None, None
+        if n is not None and 0 <= k <= 5000 and -2 ** 62 < n < 2 ** 62:
+            b = bad(n, k)
+            if b:
+                return {"replay": {"kind": "arr_comb", "n": n, "k": k}, "reproduced": True, "observed": b}
+        for n in range(0, 201):
+            ks = [k for k in range(0, n + 1) if math.comb(n, min(k, n - k)) * min(k, n - k) <= MAX64]
+            got = {k: bad(n, k) for k in ks}
+            hit = next((v for v in got.values() if v), None)
+            if hit:
+                return {"replay": {"kind": "arr_comb", "n": hit["n"], "k": hit["k"]}, "reproduced": True, "observed": hit}
+        return {"replay": {"kind": "smt-model", "n": n, "k": k}, "reproduced": False}
+    except Exception as e:       # noqa: BLE001 - the replay must never mask the refuted obligation
+        return {"replay": {"kind": "smt-model"}, "reproduced": False, "observed": {"error": str(e)[:200]}}
+
+
+ARR_COMB = dict(
+    params=[("n", "Int"), ("k", "Int")], returns="Int",
+    requires=[
+        INT64_PARAM.format("n"), "0 <= k and k <= 9223372036854775806", "n >= 0 or k >= 1",
+        # the range in which the int64 arithmetic is exact (same as the scalar comb)
+        "implies(0 <= k and k <= n, C(n, min(k, n - k)) * min(k, n - k) <= 9223372036854775807)",
+    ],
+    ensures=["result == C(old(n), old(k))"],
+    loops={"0": dict(invariant=[
+        "0 <= i", "i <= k",
+        "implies(invalid, n == 0 and steps == k and prod == ite(i == 0, 1, 0))",
+        "implies(not invalid, 0 <= steps and steps <= k and 2 * steps <= n and prod == C(n, min(i, steps)) and prod >= 1)",
+    ])},
+    ghost={
+        "entry": ["use('C_out', n, k)", "use('C_zero', n)", "use('symm', n, k)"],
+        "loop[0].before": ["use('C_zero', n)"],
+        "loop[0].start": ["use('absorb', n, i)", "use('mono_mul', n, i + 1, steps)", "use('C_pos', n, i + 1)", "use('C_pos', n, steps)"],
+    },
+    on_counterexample=_replay_arr_comb,
+)
+ARR_COMB_CALLEE = dict(params=ARR_COMB["params"], returns="Int", requires=ARR_COMB["requires"], ensures=["result == C(n, k)"])
+
+
+def _lift_arr_comb(f):
+    from vf import lift
+    return lift.lift(f, elementwise=["n"])[0]
+
+
+def _lift_index(f):
+    from vf import lift
+    return lift.lift(f, last_axis={"basis": "element"}, array_callees=["arr_comb"])[0]
+
+
+def index_array_contract(upto):
+    c = dict(index_contract(upto))
+    c["int64"] = False         # the lifted text carries its own machine-width obligations (__i32 / __i64)
+    return c
+
+
+LIFTED = {
+    "piquasso/_math/combinatorics.py:arr_comb": (ARR_COMB, {}, _lift_arr_comb),
+    "piquasso/_math/indices.py:get_index_in_fock_space_array": (index_array_contract("d"), {"arr_comb": ARR_COMB_CALLEE}, _lift_index),
+    "piquasso/_math/indices.py:get_index_in_fock_subspace_array": (index_array_contract("d-1"), {"arr_comb": ARR_COMB_CALLEE}, _lift_index),
+}
+
 FUNCTIONS = {
     "piquasso/_math/combinatorics.py:comb": (COMB, {}),
     "piquasso/_math/indices.py:get_index_in_fock_space": (index_contract("d"), CALLEES),
@@ -181,6 +267,11 @@ def verify_all(run, table):
 
 def check(run):
     verify_all(run, FUNCTIONS)
+    for fid, (contract, callees, transform) in LIFTED.items():
+        if getattr(run, "only", None) and run.only not in fid:
+            continue
+        rel, qn = fid.split(":")
+        pyvc.verify_function(run, rel, qn, contract, SPEC, callees, transform=transform)
 
 
 def check_comb(run):
